@@ -33,6 +33,14 @@ struct Script {
     /// panic in the call with this per-thread index on this thread (-1: never)
     panic_thread: i64,
     panic_call: i64,
+    /// panic in the input generator when it produces this per-thread id
+    gpanic_thread: i64,
+    gpanic_id: i64,
+    /// per-thread skew: thread t generates `t * skew_gen` slower and calls
+    /// `(threads - 1 - t) * skew_call` slower
+    skew_gen: u64,
+    skew_call: u64,
+    threads: u64,
 }
 
 static SCRIPT: std::sync::Mutex<Script> = std::sync::Mutex::new(Script {
@@ -47,6 +55,11 @@ static SCRIPT: std::sync::Mutex<Script> = std::sync::Mutex::new(Script {
     alloc_size: 0,
     panic_thread: -1,
     panic_call: -1,
+    gpanic_thread: -1,
+    gpanic_id: -1,
+    skew_gen: 0,
+    skew_call: 0,
+    threads: 1,
 });
 fn script() -> Script {
     *SCRIPT.lock().unwrap_or_else(|e| e.into_inner())
@@ -133,8 +146,12 @@ fn make_input<I: Val>() -> I {
     let t = vclock::thread_index();
     let id = NEXT_ID[t].fetch_add(1, SeqCst);
     vclock::log(EV_GEN, id, 0);
+    if s.gpanic_thread == t as i64 && s.gpanic_id == id as i64 {
+        PANICS.fetch_add(1, SeqCst);
+        panic!("scripted generator panic");
+    }
     churn(s.gen_allocs, s.alloc_size);
-    vclock::advance(s.gen_cost);
+    vclock::advance(s.gen_cost + t as u64 * s.skew_gen);
     I::make(id)
 }
 
@@ -150,7 +167,7 @@ fn call<O: Val>(input_id: u64) -> O {
         panic!("scripted panic");
     }
     churn(s.call_allocs, s.alloc_size + j);
-    vclock::advance(s.call_cost + s.call_slope * j);
+    vclock::advance(s.call_cost + s.call_slope * j + (s.threads - 1 - (t as u64).min(s.threads - 1)) * s.skew_call);
     O::make(input_id)
 }
 
@@ -254,6 +271,15 @@ pub fn exec(toks: &[&str]) -> String {
         }
         _ => (-1, -1),
     };
+    let (gt, gi) = match get("gpanic") {
+        Some(p) if p != "-" => {
+            let (a, b) = p.split_once(':').unwrap();
+            (a.parse().unwrap(), b.parse().unwrap())
+        }
+        _ => (-1, -1),
+    };
+    let skew: Vec<u64> = get("skew").unwrap_or("0,0").split(',').map(|x| x.parse().unwrap()).collect();
+    let ep_is_local = get("ep").unwrap_or("bench").contains("local");
     *SCRIPT.lock().unwrap_or_else(|e| e.into_inner()) = Script {
         gen_cost: costs[0],
         call_cost: costs[1],
@@ -266,6 +292,11 @@ pub fn exec(toks: &[&str]) -> String {
         alloc_size: allocs[3],
         panic_thread: pt,
         panic_call: pc,
+        gpanic_thread: gt,
+        gpanic_id: gi,
+        skew_gen: skew[0],
+        skew_call: skew[1],
+        threads: if ep_is_local { 1 } else { threads as u64 },
     };
     for t in 0..vclock::MAX_THREADS {
         NEXT_ID[t].store(0, SeqCst);
@@ -452,8 +483,11 @@ pub fn gen(rng: &mut Rng, n: usize, prec: u64) -> Vec<String> {
         let ic = ep != "bench" && ep != "bench_local" && rng.chance(1, 3);
         let items = if rng.chance(1, 4) { (1 + rng.below(100)).to_string() } else { "-".into() };
         let panic = if rng.chance(1, 8) { format!("{}:{}", rng.below(t as u64), rng.below(12)) } else { "-".into() };
+        let has_inputs = ep != "bench" && ep != "bench_local";
+        let gpanic = if has_inputs && panic == "-" && rng.chance(1, 10) { format!("{}:{}", rng.below(t as u64), rng.below(12)) } else { "-".into() };
+        let skew = if t > 1 && rng.chance(1, 2) { format!("{},{}", rng.below(40) * scale, rng.below(40) * scale) } else { "0,0".into() };
         out.push(format!(
-            "bench prec={prec} ep={ep} in={} out={} mode={mode} T={t} sc={sc} ss={ss} maxt={maxt} mint={mint} sk={sk} ic={} items={items} cost={} alloc={} panic={panic}",
+            "bench prec={prec} ep={ep} in={} out={} mode={mode} T={t} sc={sc} ss={ss} maxt={maxt} mint={mint} sk={sk} ic={} items={items} cost={} alloc={} panic={panic} gpanic={gpanic} skew={skew}",
             SHAPES[rng.below(4) as usize],
             SHAPES[rng.below(4) as usize],
             ic as u8,
